@@ -565,6 +565,19 @@ O("C01.fill_mly_ymcw", ["C01"], "h_C17s.c", "h_C01_fill_mly_ymcw",
 O("C01.clr_poss", ["C01"], "h_C17s.c", "h_C01_clr_poss",
   "clr_poss (BYSETPOS=P on the candidate days of one period): of 0..3 candidates exactly the P-th (P-th last for negative P) is kept, nothing when the set is smaller",
   ["clr_poss"], kind="bounded", bound="candidate set of 0..3 days, one BYSETPOS value in +-1..4", **dict(EE, unwind=6))
+ED = dict(solver=["minisat", "kissat", "cadical"], timeout={"quick": 900, "thorough": 1800}, replay=False, replay_note="container replaced by a bitmap",
+          assumptions=["ass_bi383 replaced by a 384-bit bitmap writer (the real one: C19.ass_bi383); membership is decided through a symbolic witness value, both directions",
+                       "echs_scale_ndim / echs_scale_wday replaced by the Gregorian spec values (C15.dispatch / C15.greg)",
+                       "loops over the days of a month / year unwound completely (unwinding assertions on)"])
+O("C01.fill_mly_ymd_all_d", ["C01"], "h_C01d.c", "h_C01_fill_mly_ymd_all_d",
+  "fill_mly_ymd_all_d: for every year, month and weekday mask exactly the days of the month on an allowed weekday are selected",
+  ["fill_mly_ymd_all_d", "inc_wd"], unwind=33, **ED)
+O("C01.fill_yly_ymd_all_m", ["C01", "C09"], "h_C01d.c", "h_C01_fill_yly_ymd_all_m",
+  "fill_yly_ymd_all_m: for every year, N in +-1..31 and weekday mask exactly the N-th (N-th last) day of every month that has one is selected",
+  ["fill_yly_ymd_all_m"], unwind=14, **ED)
+O("C01.fill_yly_yd_all", ["C01"], "h_C01d.c", "h_C01_fill_yly_yd_all",
+  "fill_yly_yd_all: for every year and weekday mask exactly the days of the year on a listed weekday are selected",
+  ["fill_yly_yd_all", "inc_md", "inc_wd"], unwind=368, **ED)
 O("C09.make_enum", ["C09"], "h_C09e.c", "h_C09_make_enum",
   "make_enum (the time-of-day arrays every filler indexes): for every BYHOUR within 0..23, BYMINUTE within 0..59, BYSECOND within 0..60 and every DTSTART time it writes inside its three arrays, yields 1..24 / 1..60 / 1..61 entries, each a member of its BYxxx set (DTSTART's value when the set is empty), strictly increasing; the loops terminate",
   ["make_enum"], dfcc=True, loop_contracts=True, replace=["bui31_next", "bui63_next"],
